@@ -2472,7 +2472,7 @@ impl SubRule {
         }
     }
 
-    fn input_match_syll_var(&self, captures: &mut Vec<MatchElement>, state_index: &mut usize, syll_to_match: &Syllable, mods: &Option<Modifiers>, word: &Word, pos: &mut SegPos) -> Result<bool, RuleRuntimeError> {
+    fn input_match_syll_var(&self, captures: &mut Vec<MatchElement>, _state_index: &mut usize, syll_to_match: &Syllable, mods: &Option<Modifiers>, word: &Word, pos: &mut SegPos) -> Result<bool, RuleRuntimeError> {
         if pos.seg_index != 0 || word.out_of_bounds(*pos){
             return Ok(false)
         }
@@ -2497,7 +2497,7 @@ impl SubRule {
         }
         captures.push(MatchElement::Syllable(csi, None));
 
-        *state_index += 1;
+        // NOTE: the caller advances state_index
         pos.syll_index += 1;
         pos.seg_index = 0;
 
